@@ -263,6 +263,10 @@ def units(tier):
     _wrap(us, "C16.pitzer.ETHETAS.ethetap==d(etheta)/dI", PZ.unit_ethetas)
     _wrap(us, "C16.pitzer.ETHETA_PARAMS.JPRIME==x*dJ/dx", PZ.unit_etheta_params)
     _wrap(us, "C16.pitzer.mixing_terms_gamma_and_phi_from_one_excess_function", PZ.unit_pitzer_mixing_terms)
+    from props import c17_control as _CT
+    def _ro(twin=False):
+        r_ = _CT.unit_scalar_readouts(twin); r_.id = "C16.DH_readouts.DH_A_DH_B_report_the_parameters_in_use"; return r_
+    _wrap(us, "C16.DH_readouts.DH_A_DH_B_report_the_parameters_in_use", _ro)
     from props import c16_sit as ST
     _wrap(us, "C16.sit.sums_over_all_solutes_and_DH_term", ST.unit_sit)
     return us
